@@ -30,6 +30,9 @@ def runs(tier):
         ("G(6) x U, double", [["--n", 6, "--alpha", "U"]]),
         ("edge insertion order reversed / interleaved: G(4) x A3, G(5) x A2", [["--n", 4, "--alpha", "A3", "--eorder", o] for o in (1, 2)] + [["--n", 5, "--alpha", "A2", "--eorder", o] for o in (1, 2)]),
         ("positional output iterator (begin() of a pre-sized vector instead of a back_inserter): G(4) x A3, G(5) x A2, blob grammar x M2", [["--n", 4, "--alpha", "A3", "--outiter", 1], ["--n", 5, "--alpha", "A2", "--outiter", 1], ["--grammar", "blobs:3:2", "--alpha", "M2", "--outiter", 1]]),
+        ("exterior weight map (associative map over a std::map while the graph's interior edge_weight property holds decoy values): G(4) x A3 double and int, G(5) x A2, 720 pseudo-random sparse graphs n=8..14 x 2 weightings",
+         [["--n", 4, "--alpha", "A3", "--wmap", 1], ["--n", 4, "--alpha", "A3", "--wmap", 1, "--wtype", "int"], ["--n", 5, "--alpha", "A2", "--wmap", 1],
+          ["--families", lcg_menu((8, 10, 12, 14), (1.3, 1.6, 2.0), 60), "--alpha", "R9x2", "--wmap", 1]]),
         ("G(5) with at most 7 edges x PM2 (every assignment of the distinct weights 2^0..2^(m-1): unique optimum, no ties that could mask a lost candidate)", [["--n", 5, "--alpha", "PM2", "--max-m", 7]]),
         ("weights with 26 significant bits (2^25 + {1,2,3}: competing cycles differ by units at magnitude 1e8): G(4) x B3 double and int, G(5) x B2 double",
          [["--n", 4, "--alpha", "B3"], ["--n", 4, "--alpha", "B3", "--wtype", "int"], ["--n", 5, "--alpha", "B2"]]),
